@@ -1,5 +1,6 @@
 import Gms.Driver.Proto
 import Gms.Model.ProcList
+import Gms.Model.ProcListSql
 open Gms.Proto Gms.ProcList
 
 /-! Line-protocol driver of C37.
@@ -7,7 +8,10 @@ open Gms.Proto Gms.ProcList
 payload  `(seq ev*)`   one goroutine calls the methods in this order; observation after every call
          `(conc (ev*) (ev*) …)`  one goroutine per list (each list names its own connection only);
                        observation at quiescence, the model runs the lists one after the other
-ev       `(add c) (ready c) (rm c) (bq c pid) (eq c pid) (bo c) (eo c) (kill c)`
+ev       `(add c) (ready c) (rm c) (bq c pid) (eq c pid) (bo c) (eo c) (kill c)`   direct calls
+         `(kq i pid c) (kc i pid c) (kd i pid c) (show i pid)`   statements KILL QUERY c / KILL CONNECTION c /
+                       KILL c / SHOW PROCESSLIST executed through the engine by connection i as query pid
+observation per call: `result|connected,running|process list|pid index|cancelled contexts|close requests`
 -/
 
 def parseEv : Sexp → Option Ev
@@ -20,6 +24,14 @@ def parseEv : Sexp → Option Ev
   | .list [.atom "eo", c] => c.nat?.map Ev.endOp
   | .list [.atom "kill", c] => c.nat?.map Ev.kill
   | _ => none
+
+def parseSqlEv : Sexp → Option SqlEv
+  | .list [.atom "kq", i, p, c] => do some (SqlEv.killStmt .query (← i.nat?) (← p.nat?) (← c.nat?))
+  | .list [.atom "kc", i, p, c] => do some (SqlEv.killStmt .connection (← i.nat?) (← p.nat?) (← c.nat?))
+  -- the grammar's bare `KILL n` sets Kill.Connection
+  | .list [.atom "kd", i, p, c] => do some (SqlEv.killStmt .connection (← i.nat?) (← p.nat?) (← c.nat?))
+  | .list [.atom "show", i, p] => do some (SqlEv.show (← i.nat?) (← p.nat?))
+  | e => (parseEv e).map SqlEv.call
 
 def insSorted (le : α → α → Bool) (x : α) : List α → List α
   | [] => [x]
@@ -48,11 +60,24 @@ def cancStr (l : List Nat) : String :=
 def aByPid (procs : List (Nat × Proc)) : List (Nat × Nat) :=
   procs.filterMap fun (c, p) => if p.cmd = .query then some (p.pid, c) else none
 
-def stObs (s : St) : String :=
-  s!"{s.connected},{s.running}|{viewStr s.procs}|{byPidStr s.byPid}|{cancStr s.cancelled}"
+/-- The rows of SHOW PROCESSLIST: Id, Command, State ("running" for a query without table progress), Info. -/
+def rowsStr (procs : List (Nat × Proc)) : String :=
+  ",".intercalate ((sortBy (fun a b => a.1 ≤ b.1) procs).map fun (c, p) =>
+    s!"{c}:{cmdLetter p.cmd}:{if p.cmd = .query then "r" else "-"}:{match p.query with | none => "-" | some q => toString q}")
 
-def aObs (a : ASt) : String :=
-  s!"{aConnected a},{aRunning a}|{viewStr a.procs}|{byPidStr (aByPid a.procs)}|{cancStr a.cancelled}"
+def sresStr : SRes → String
+  | .call r => resStr r
+  | .ok => "d"
+  | .rows v => "w[" ++ rowsStr v ++ "]"
+  | .crash => "X"
+
+def closedStr (l : List Nat) : String := ",".intercalate (l.map toString)
+
+def stObs (s : SSt) : String :=
+  s!"{s.pl.connected},{s.pl.running}|{viewStr s.pl.procs}|{byPidStr s.pl.byPid}|{cancStr s.pl.cancelled}|{closedStr s.closed}"
+
+def aObs (a : SASt) : String :=
+  s!"{aConnected a.pl},{aRunning a.pl}|{viewStr a.pl.procs}|{byPidStr (aByPid a.pl.procs)}|{cancStr a.pl.cancelled}|{closedStr a.closed}"
 
 def stObsQuiet (s : St) : String := s!"{s.connected},{s.running}|{viewStr s.procs}|{byPidStr s.byPid}"
 def aObsQuiet (a : ASt) : String := s!"{aConnected a},{aRunning a}|{viewStr a.procs}|{byPidStr (aByPid a.procs)}"
@@ -61,28 +86,28 @@ def aObsQuiet (a : ASt) : String := s!"{aConnected a},{aRunning a}|{viewStr a.pr
 `regionName` knows `remove_during_query` and `ready_during_operation` only: F-C37-a
 (`begin_query_error_path`) was repaired (`Gms.C37.beginQuery_refines`), so a history whose only
 departure from the Spec is a failed `BeginQuery` gets region "-" and is a violation again. -/
-partial def runBoth (s : St) (a : Option ASt) (region : String) (es : List Ev)
-    (accI accS : List String) : (St × Option ASt × String × List String × List String) :=
+partial def runBoth (s : SSt) (a : Option SASt) (region : String) (es : List SqlEv)
+    (accI accS : List String) : (SSt × Option SASt × String × List String × List String) :=
   match es with
   | [] => (s, a, region, accI.reverse, accS.reverse)
   | e :: es =>
-    let (s', r) := step s e
-    let oi := resStr r ++ "|" ++ stObs s'
+    let (s', r) := sstep s e
+    let oi := sresStr r ++ "|" ++ stObs s'
     match a with
     | none => runBoth s' none region es (oi :: accI) accS
     | some a0 =>
-      let region := if region == "-" then regionName a0 e else region
-      match astep a0 e with
+      let region := if region == "-" then sRegionName a0 e else region
+      match sastep a0 e with
       | none => runBoth s' none region es (oi :: accI) accS
-      | some (a', r') => runBoth s' (some a') region es (oi :: accI) ((resStr r' ++ "|" ++ aObs a') :: accS)
+      | some (a', r') => runBoth s' (some a') region es (oi :: accI) ((sresStr r' ++ "|" ++ aObs a') :: accS)
 
 def handle (p : List Sexp) : String :=
   match p with
   | [Sexp.list (Sexp.atom "seq" :: evs)] =>
-    match evs.mapM parseEv with
+    match evs.mapM parseSqlEv with
     | none => answer "bad-case"
     | some es =>
-      let (_, a, region, oi, os) := runBoth St.init (some ASt.init) "-" es [] []
+      let (_, a, region, oi, os) := runBoth SSt.init (some SASt.init) "-" es [] []
       let io := ";".intercalate oi
       match a with
       | none => answer io "?" "-"
@@ -90,16 +115,16 @@ def handle (p : List Sexp) : String :=
         let so := ";".intercalate os
         if so == io then answer io else answer io so region
   | [Sexp.list (Sexp.atom "conc" :: streams)] =>
-    match streams.mapM (fun s => s.items.mapM parseEv) with
+    match streams.mapM (fun s => s.items.mapM parseSqlEv) with
     | none => answer "bad-case"
     | some ss =>
       let es := ss.flatten
-      let (s, a, region, _, _) := runBoth St.init (some ASt.init) "-" es [] []
-      let io := stObsQuiet s
+      let (s, a, region, _, _) := runBoth SSt.init (some SASt.init) "-" es [] []
+      let io := stObsQuiet s.pl
       match a with
       | none => answer io "?" "-"
       | some a =>
-        let so := aObsQuiet a
+        let so := aObsQuiet a.pl
         if so == io then answer io else answer io so region
   | _ => answer "bad-case"
 
